@@ -14,8 +14,10 @@ import (
 	"math/rand/v2"
 	"os"
 	"os/exec"
+	"runtime/debug"
 	"sort"
 	"strings"
+	"time"
 )
 
 // Case is one correspondence case: operation lines and what the implementation answered.
@@ -74,6 +76,9 @@ type Ctx struct {
 	Oracle   string
 	Replay   []byte // non-nil: replay this input (raw JSON of Violation.Input / Disagreement)
 	WorkDir  string
+
+	// Abort is set by Main: flush, write the result and exit (used when the code under test hangs).
+	Abort func()
 
 	res     Result
 	cases   []Case
@@ -265,3 +270,34 @@ func B(b bool) string {
 	return "0"
 }
 
+
+// Guard runs one case of the real code under a watchdog.  A case that does not return within
+// limit is a hang of the code under test: it is recorded as a violation (key <where>-hang) with the
+// case input as replay, and the run ends there (the stuck goroutine cannot be stopped).  A panic
+// escaping the case is recorded likewise (key <where>-panic).
+func (c *Ctx) Guard(prop, where string, input any, limit time.Duration, fn func()) {
+	done := make(chan any, 1)
+	go func() {
+		defer func() {
+			if x := recover(); x != nil {
+				done <- fmt.Sprintf("%v\n%s", x, debug.Stack())
+				return
+			}
+			done <- nil
+		}()
+		fn()
+	}()
+	select {
+	case x := <-done:
+		if x != nil {
+			c.Violate(Violation{Property: prop, Clause: "no input makes the code panic", Key: where + "-panic", Where: where, Input: input, Detail: fmt.Sprint(x)})
+		}
+	case <-time.After(limit):
+		c.Violate(Violation{Property: prop, Clause: "no input makes the code hang", Key: where + "-hang", Where: where, Input: input,
+			Detail: fmt.Sprintf("case did not return within %v", limit)})
+		c.cases = nil // the hung case may be half recorded
+		if c.Abort != nil {
+			c.Abort()
+		}
+	}
+}
